@@ -92,3 +92,22 @@ package inverted
 //@   safety -overflow -nil
 //@   ensures result == nil ==> lastres(Put) == nil && lastres(Delete) == nil
 //@   loop 1 invariant lastres(Put) == nil && lastres(Delete) == nil
+
+// ---- array index: previous-versus-current diff (property C02) ----
+// A deletion is emitted only for a value the point no longer has, an addition only for a
+// value it did not have before, and every change carries the point's id.
+//@ func (*IndexInvertedArray).InsertUpdateDelete$1
+//@   property C02
+//@   ensures err == nil
+//@   ensures forall(k, 0, len(result0), result0[k].Id == change.Id)
+//@   ensures forall(k, 0, len(result0), result0[k].PreviousData != nil ==> forall(j, 0, len(change.CurrentData), change.CurrentData[j] != *result0[k].PreviousData))
+//@   ensures forall(k, 0, len(result0), result0[k].CurrentData != nil ==> forall(j, 0, len(change.PreviousData), change.PreviousData[j] != *result0[k].CurrentData))
+//@   loop 1 invariant rangeindex >= -1 && rangeindex < len(change.PreviousData)
+//@   loop 1 invariant forall(j, 0, rangeindex+1, contains(prevSet, change.PreviousData[j]))
+//@   loop 2 invariant forall(j, 0, len(change.PreviousData), contains(prevSet, change.PreviousData[j]))
+//@   loop 2 invariant rangeindex >= -1 && rangeindex < len(change.CurrentData)
+//@   loop 2 invariant forall(j, 0, rangeindex+1, contains(currentSet, change.CurrentData[j]))
+//@   loop 2 invariant forall(k, 0, len(changes), changes[k].Id == change.Id && changes[k].PreviousData == nil && changes[k].CurrentData != nil && !contains(prevSet, *changes[k].CurrentData))
+//@   loop 3 invariant forall(j, 0, len(change.PreviousData), contains(prevSet, change.PreviousData[j]))
+//@   loop 3 invariant forall(j, 0, len(change.CurrentData), contains(currentSet, change.CurrentData[j]))
+//@   loop 3 invariant forall(k, 0, len(changes), changes[k].Id == change.Id && (changes[k].PreviousData != nil ==> !contains(currentSet, *changes[k].PreviousData)) && (changes[k].CurrentData != nil ==> !contains(prevSet, *changes[k].CurrentData)))
